@@ -368,6 +368,16 @@ class Interp:
         self.stored_roots.append(target.root)
         self.ev(st, "store", node, root=target.root, idx=target.idx, value=value, aug=aug, old=old)
 
+    def _immutable_param(self, v: View) -> bool:
+        """A parameter of the analysed entry function annotated int / bool / str / float: no callee can change it."""
+        if v.idx or not self.cur_fn:
+            return False
+        a = self.cur_fn[0].node.args
+        for p_ in a.posonlyargs + a.args + a.kwonlyargs:
+            if p_.arg == v.root and p_.annotation is not None and ast.unparse(p_.annotation) in ("int", "bool", "str", "float", "np.uint32", "np.int32", "np.int64"):
+                return True
+        return False
+
     def havoc_root(self, st: State, root: str, prefix: Tuple[Any, ...] = ()) -> None:
         """Forget the contents of root[prefix...] (the whole array when prefix is empty)."""
         self.n += 1
@@ -1447,7 +1457,8 @@ class Interp:
             positions = self._indirect_mod_positions(fv)
             for i, a in enumerate(args):
                 a = as_view(a)
-                if isinstance(a, View) and (positions is None or i in positions):
+                if isinstance(a, View) and (positions is None or i in positions) and not self._immutable_param(a):
+                    self.stored_roots.append(a.root)  # (a loop around this call must forget the array too)
                     self.havoc_root(st, a.root)
             ev.ret = self.fresh_root("iret", ("icall", fv, tuple(args)))
             return [(st, ev.ret)]
@@ -1504,7 +1515,8 @@ class Interp:
                 positions = get_effects(self.p).modified_positions([fn])
             for i, a in enumerate(args):
                 a = as_view(a)
-                if isinstance(a, View) and (positions is None or i in positions):
+                if isinstance(a, View) and (positions is None or i in positions) and not self._immutable_param(a):
+                    self.stored_roots.append(a.root)
                     self.havoc_root(st, a.root)
             ev.ret = self.fresh_root("ret", ("call", fn.fq, tuple(args)))
             return [(st, ev.ret)]
